@@ -222,8 +222,24 @@ impl Gen {
         }
         // mostly small tables (growth is exercised), now and then a heavily over-provisioned one
         let strings = if self.rng.chance(1, 2) { 0 } else if self.rng.chance(1, 10) { self.rng.range(2000, 6000) } else { self.rng.range(1, 60) };
-        self.slots[si] = GSlot { kind, strs: Vec::new(), bytes, limit };
         let l = limit.map(|l| l.to_string()).unwrap_or_else(|| "max".into());
+        if self.rng.chance(1, 5) {
+            // through one of the other constructors and the Capacity / MemoryLimits builders; the generator
+            // keeps the *documented* effective configuration for its own bookkeeping
+            let ctor = *self.rng.pick(&["new", "withCapacity", "withMemoryLimits", "withCapacityAndMemoryLimits", "withHasher", "withCapacityAndHasher", "full", "withCapacityAndMemoryLimits", "withCapacity"]);
+            let cap_b = *self.rng.pick(&["new", "new", "forBytes", "forBytes", "forStrings", "minimal", "default"]);
+            let lim_b = *self.rng.pick(&["new", "forMemoryUsage", "forMemoryUsage", "default"]);
+            let takes_cap = matches!(ctor, "withCapacity" | "withCapacityAndMemoryLimits" | "withCapacityAndHasher" | "full");
+            let takes_lim = matches!(ctor, "withMemoryLimits" | "withCapacityAndMemoryLimits" | "full");
+            let eff_bytes = if !takes_cap { 4096 } else { match cap_b { "new" | "forBytes" => bytes, "minimal" => 1, _ => 4096 } };
+            let eff_limit = if !takes_lim || lim_b == "default" { None } else { limit };
+            let b = eff_bytes.min(40);
+            let items: Vec<String> = [1, b, 2 * b + 1, b / 2 + 1].iter().enumerate().map(|(i, &n)| crate::hex(&filler(n.max(1), 50 + i as u64))).collect();
+            self.slots[si] = GSlot { kind, strs: Vec::new(), bytes: eff_bytes, limit: eff_limit };
+            self.emit(format!("ctor {si} {kind} {ctor} {cap_b} {strings} {bytes} {lim_b} {l} {}", items.join(",")));
+            return si;
+        }
+        self.slots[si] = GSlot { kind, strs: Vec::new(), bytes, limit };
         self.emit(format!("new {si} {kind} {strings} {bytes} {l}"));
         si
     }
